@@ -37,6 +37,7 @@ RULE += (" Rules have an id and a name, only a name or only an id; rule lists mi
 RULE += (" Filter documents stand at the end of the stream or between the rule documents (also directly before an action: repeat document).")
 RULE += (" Detection bodies of rules and filters come in the shapes rules are written in: one map, a map with two items, a list of maps, a value list.")
 RULE += (" One case in five loads the stream with error collection and gives one rule a cosmetic fault (invalid status / level / date / tag): the rule is filtered like any other.")
+RULE += (" A third of the pipelines is gated: an identified item for rules of one product, then an item for the detection items the first was applied to; rule and filter items of a rule of another product stay untouched.")
 RULE += (" A third of the cases also load the filters once as objects and apply them (apply_filters) to two freshly loaded copies of the rules in turn: both conversions equal the one of the stream and the filter objects serialise as before.")
 ASSUMPTIONS = [
     "vf/ref is the specification of rule and filter conditions; atoms independent",
@@ -89,6 +90,26 @@ def filter_formula(flt: dict):
     return rc.parse_condition(f["condition"], names, leaf)[0]
 
 
+def _make_pipeline(suffix):
+    """'' -> none; '_m' -> one suffix item; 'gate:<product>' -> an identified item applied to rules of that product only
+    (suffix _a) followed by an item applied to the detection items the first one was applied to (suffix _m)."""
+    from sigma.processing.pipeline import ProcessingPipeline
+    if not suffix:
+        return None
+    if suffix.startswith("gate:"):
+        return ProcessingPipeline.from_dict({"transformations": [
+            {"id": "first", "type": "field_name_suffix", "suffix": "_a", "rule_conditions": [{"type": "logsource", "product": suffix[5:]}]},
+            {"id": "second", "type": "field_name_suffix", "suffix": "_m",
+             "detection_item_conditions": [{"type": "processing_item_applied", "processing_item_id": "first"}]}]})
+    return ProcessingPipeline.from_dict({"transformations": [{"type": "field_name_suffix", "suffix": suffix}]})
+
+
+def _rule_suffix(suffix, rule_doc):
+    if suffix.startswith("gate:"):
+        return "_a_m" if rule_doc.get("logsource", {}).get("product") == suffix[5:] else ""
+    return suffix
+
+
 def _convert(docs, rseed, pipeline_suffix, collect=False):
     from sigma.collection import SigmaCollection
     from sigma.processing.pipeline import ProcessingPipeline
@@ -96,9 +117,7 @@ def _convert(docs, rseed, pipeline_suffix, collect=False):
     random.seed(rseed)
     # independent documents (no dict shared between two documents, as after parsing a YAML stream)
     coll = SigmaCollection.from_dicts(json.loads(json.dumps(docs)), collect_errors=collect)
-    pipeline = None
-    if pipeline_suffix:
-        pipeline = ProcessingPipeline.from_dict({"transformations": [{"type": "field_name_suffix", "suffix": pipeline_suffix}]})
+    pipeline = _make_pipeline(pipeline_suffix)
     from vf.target.correlation import correlation_attrs
     backend = make_backend(CFG, pipeline, extra_attrs=correlation_attrs({}))
     per_rule: dict[str, list] = {}
@@ -219,7 +238,7 @@ def check_case(case: dict) -> Outcome:
             continue
         for i, q in enumerate(got.get(t, [])):
             want = AND([ref_rules[t][i]] + [ref_filters[j] for j in tg[t]])
-            want = _suffix_atoms(want, suffix)
+            want = _suffix_atoms(want, _rule_suffix(suffix, r))
             try:
                 dec = decode(q, cfg)
             except DecodeError as e:
@@ -265,7 +284,7 @@ def check_case(case: dict) -> Outcome:
                 random.seed(rseed + round_)
                 coll = SigmaCollection.from_dicts(json.loads(json.dumps(rules)), collect_errors=bool(case.get("collect_errors")))
                 coll.apply_filters(fobjs)
-                pipeline = ProcessingPipeline.from_dict({"transformations": [{"type": "field_name_suffix", "suffix": suffix}]}) if suffix else None
+                pipeline = _make_pipeline(suffix)
                 per_rule = {}
 
                 def cb(rule, fmt, index, cond, result):
@@ -350,7 +369,7 @@ def cases(draw):
                                             [draw(st.sampled_from(spellings))], draw(st.sampled_from(spellings)), ["rn2", UUIDS[1].upper()]]))
         filters.append({"title": f"flt{j}", "logsource": draw(st.sampled_from(LOGSOURCES)), "filter": fd})
     case = {"rules": rules, "filters": filters, "rseed": draw(st.integers(0, 10 ** 6)),
-            "suffix": draw(st.sampled_from(["", "", "_m"]))}
+            "suffix": draw(st.sampled_from(["", "", "_m", "gate:win", "gate:linux"]))}
     if draw(st.integers(0, 3)) == 0:
         # error-collecting load: a rule with a merely cosmetic fault (status / level / date / tag that is not valid) keeps
         # the fault in its error list, is a rule like any other and is filtered like any other
